@@ -78,6 +78,7 @@ class IndexableArray(RaggedBase):
             return self._get_multiple_rows(np.asanyarray(index), do_split)
         elif isinstance(index, IndexableArray):
             if np.issubdtype(index, bool):
+                self.ravel()
                 return np.flatnonzero(index.ravel()), None
         else:
             return NotImplemented
